@@ -147,10 +147,21 @@ def rule_hooks(ctx, res):
             continue
         rets = sorted((r for r in walk_own(m.node)
                        if isinstance(r, ast.Return)), key=lambda r: r.lineno)
-        last = rets[-1].value if rets else None
-        ok = isinstance(last, ast.BinOp) and isinstance(last.op, ast.Add) and \
-            isinstance(last.left, ast.Name) and \
-            ast.unparse(last.right) == needle
+
+        def spelled(v):
+            return isinstance(v, ast.BinOp) and isinstance(v.op, ast.Add) \
+                and isinstance(v.left, ast.Name) and \
+                ast.unparse(v.right) == needle
+
+        def ignore_mode(v):
+            # the `ignore_tokens` mode writes one space + the spelling
+            return isinstance(v, ast.BinOp) and isinstance(v.op, ast.Add) \
+                and isinstance(v.left, ast.Constant) and \
+                v.left.value == b' ' and ast.unparse(v.right) == needle
+        good = [r for r in rets if spelled(r.value)]
+        ok = bool(good) and all(spelled(r.value) or ignore_mode(r.value)
+                                for r in rets)
+        last = good[0].value if good else (rets[-1].value if rets else None)
         asserted = any(isinstance(a, ast.Assert) for a in walk_own(m.node))
         res.check(ok and asserted, 'R-C09-hooks', m.qual,
                   'returns spaces + the token\'s own spelling',
@@ -262,7 +273,9 @@ def rule_wsregex(ctx, res):
                       'always' if not some_none else (
                           'never' if not some_nl else 'sometimes'),
                       'with' if repl_nl else 'without'), loc)
-    res.require_min('R-C09-wsregex', 25)
+    # (a pipeline with fewer steps is still whitespace-only: the count only
+    # guards against an extraction that found next to nothing)
+    res.require_min('R-C09-wsregex', 12)
 
 
 def _intersect_empty(lang, intro):
